@@ -161,6 +161,7 @@ func (e *c10Env) c10Forward(s c10Start, t c10Stop, st *c10State, caseSeed uint64
 			default:
 				if canFence() {
 					// PROBE: not a verdict; what arrives next is judged by order
+					rep.Count("grace_expired_fence_sent_as_probe", 1)
 					if !doFence() {
 						return
 					}
@@ -188,6 +189,7 @@ func (e *c10Env) c10Forward(s c10Start, t c10Stop, st *c10State, caseSeed uint64
 				return
 			default:
 				if canFence() {
+					rep.Count("grace_expired_fence_sent_as_probe", 1)
 					if !doFence() {
 						return
 					}
@@ -298,7 +300,10 @@ func c10GenShape(rng *kit.RNG, i int, reverse bool) c10Shape {
 		sh.Tail = 1 // label only: the uncommitted suffix is what was not committed before Clean()
 	}
 	sh.Readonly = !sh.EmptyActive && i%5 == 3 || (i%10 == 6)
-	if sh.Kind != "dense" && sh.Kind != "empty" && !reverse {
+	if sh.Kind == "compacted" && !reverse {
+		// compaction only: what a reader must do when RETENTION deletes the
+		// segment it is positioned in is not documented (observed: the
+		// subscription ends with Unknown "segment has been closed")
 		sh.CleanWaiting = rng.Bool()
 	}
 	return sh
@@ -310,6 +315,7 @@ func c10Assumptions(rep *kit.Report) {
 	rep.Assume("documented stop rules used: STOP_OFFSET / STOP_LATEST / STOP_TIMESTAMP deliver the retained messages up to and including the stop offset / the newest offset at subscribe time / the last message with timestamp <= the stop time (inclusive bounds pinned by TestSubscribeStopPosition) and then end with ResourceExhausted; the end is demanded as soon as a committed message at or beyond the stop offset exists; a read-only partition ends with ResourceExhausted at the end of the log (TestSetStreamReadonlySubscription); STOP_LATEST on an empty stream fails immediately with ResourceExhausted (TestSubscribeStopPosition)")
 	rep.Assume("when the requested range can never hold a message (stop before the start, stop timestamp before the first message, NEW_ONLY on a read-only partition) an error returned by the subscribe call itself (any code) is accepted in place of the terminal status; if the subscription is created it must deliver nothing and end with ResourceExhausted")
 	rep.Assume("not documented, safety half only (retained content, committed, ascending, not below the effective start): a stop offset that lies between HW+1 and a requested start offset above the HW")
+	rep.Assume("not judged: what happens to a subscription positioned in a segment that RETENTION deletes underneath it (observed on this tree: it ends with Unknown 'segment has been closed'); Clean() is therefore run under a waiting subscription only on compaction-only logs, where the reader is expected to carry on (ErrSegmentReplaced handling) and the fence must still be the next delivery")
 	rep.Assume("the HW is always set to the offset of a retained message (as the leader does); status message texts are not compared, only codes")
 }
 
@@ -534,5 +540,5 @@ func (e *c10Env) c10ReadonlyTransition(rng *kit.RNG) {
 }
 
 func TestVerifC10Forward(t *testing.T) {
-	c10Run(t, "forward", false, kit.Scale(110, 900), kit.Scale(120, 220))
+	c10Run(t, "forward", false, kit.Scale(90, 700), kit.Scale(120, 220))
 }
